@@ -101,6 +101,7 @@ impl Reader for ModelReader<'_, '_> {
     fn read_unord(&self, ns: &[u32]) -> BoxFut<'_, Result<Vec<Val>, Abort>> {
         self.read_join(ns)
     }
+    fn outside_domain(&self) -> Val { vec![crate::program::UNDEF] }
 }
 
 // The model is only used from one thread; the Reader trait wants Sync.
@@ -128,6 +129,7 @@ impl Reader for FullReader<'_, '_> {
     fn read_unord(&self, ns: &[u32]) -> BoxFut<'_, Result<Vec<Val>, Abort>> {
         self.read_join(ns)
     }
+    fn outside_domain(&self) -> Val { vec![crate::program::UNDEF] }
 }
 
 unsafe impl Sync for FullReader<'_, '_> {}
@@ -493,6 +495,25 @@ impl<'p> Model<'p> {
         r
     }
 
+    /// A read of `n` has been started (it may never complete: an executor
+    /// can abandon a sub-query). The engine may already have verified nodes
+    /// in the closure of `n` on behalf of this read, so the exposure to
+    /// KF-C01-1 is decided here as well as when a value is handed out.
+    pub fn touch(&mut self, n: u32, ctx: &str) {
+        if self.no_values || self.cyclic || !self.inputs_complete() {
+            return;
+        }
+        self.clock += 1;
+        let old = self.last_exec(n).is_some_and(|r| r.epoch < self.epoch);
+        if old {
+            self.expose_check(n, ctx);
+        }
+    }
+
+    fn inputs_complete(&self) -> bool {
+        self.prog.of_kind(Kind::In).iter().all(|i| self.inputs.contains_key(i))
+    }
+
     fn serve_inner(&mut self, n: u32, val: &Val, ctx: &str) -> Result<(), Failure> {
         if self.no_values {
             return Ok(());
@@ -505,6 +526,13 @@ impl<'p> Model<'p> {
         }
         if old {
             self.serves_old += 1;
+            self.expose_check(n, ctx);
+        }
+        self.judge_value(n, val, ctx)
+    }
+
+    fn expose_check(&mut self, n: u32, ctx: &str) {
+        {
             if self.exposed.is_none() {
                 // firewalls strictly below n: n itself is repaired through
                 // its own dirty edges whoever asks for it
@@ -535,6 +563,9 @@ impl<'p> Model<'p> {
                 }
             }
         }
+    }
+
+    fn judge_value(&mut self, n: u32, val: &Val, ctx: &str) -> Result<(), Failure> {
         let want = self.fs(n);
         if *val != want
             && self.cyclic
@@ -573,6 +604,30 @@ impl<'p> Model<'p> {
                 self.serve(*dep, val, &format!("executor of node {node}"))
             }
             Ev::Abort(_) => Ok(()),
+            Ev::ReadStart(id, dep) => {
+                let node = invs[*id].node;
+                self.touch(*dep, &format!("executor of node {node} (read started)"));
+                Ok(())
+            }
+            Ev::Outside(id) => {
+                if self.no_values {
+                    return Ok(());
+                }
+                // Requests for nodes that are undefined from scratch are
+                // never issued, and a defined node never evaluates a partial
+                // node outside its domain (the guard comes first): the engine
+                // ran this executor on its own, e.g. by verifying a recorded
+                // dependency before the dependency that guards it.
+                let node = invs[*id].node;
+                Err(Failure {
+                    class: "guard_violated".into(),
+                    msg: format!(
+                        "epoch {}: the partial executor of node {node} was run outside its domain; from scratch no request of this epoch evaluates it (its readers test the guard first)",
+                        self.epoch
+                    ),
+                    known: self.exposed.as_ref().map(|_| "KF-C01-1".to_string()),
+                })
+            }
             Ev::Hook(site, a, _) => {
                 if *site == "tfc_pass_end" && *a == 1 {
                     self.pass_end();
@@ -703,7 +758,7 @@ fn unord_below(prog: &Program) -> HashSet<u32> {
         match e {
             Expr::Unord(v) => out.extend(v.iter().copied()),
             Expr::Const(_) | Expr::Read(_) | Expr::Join(_) => {}
-            Expr::Idx(a, _) | Expr::Mul(a, _) | Expr::Mod(a, _) | Expr::Race(_, a) => groups(a, out),
+            Expr::Idx(a, _) | Expr::Mul(a, _) | Expr::Mod(a, _) | Expr::Race(_, a) | Expr::NonZero(a) => groups(a, out),
             Expr::Add(a, b) | Expr::Min(a, b) | Expr::Cat(a, b) => {
                 groups(a, out);
                 groups(b, out);
